@@ -60,7 +60,7 @@ def run(tier):
     sp = os.path.join(wd, "sessions.ndjson")
     _, out, _ = C.run_vh(["record", "sess", sp, "--seed", str(C.seed()), "--n", str(nsess), "--chunks", "5", "--stmts", "4"])
     sessions = C.ndjson_read(sp)
-    st, bad, states = S.judge_rows(sessions, wd, "c07s", chunks=8 if tier == "quick" else 16, module="Trace_Session", cfg="Trace_Session.cfg")
+    st, bad, states = S.judge_rows(sessions, wd, "c07s", chunks=8 if tier == "quick" else 32, module="Trace_Session", cfg="Trace_Session.cfg")
     by = {r["id"]: r for r in sessions}
     failing_chunks = sum(1 for r in sessions for x in r["res"] if x["kind"])
     recovered = sum(1 for r in sessions for i, x in enumerate(r["res"]) if i > 0 and r["res"][i - 1]["kind"] and not x["kind"])
